@@ -48,7 +48,7 @@ class Shuffler:
 
 
 class ClientRun:
-    def __init__(self, seed=0, disconnect_on_timeout=False):
+    def __init__(self, seed=0, disconnect_on_timeout=False, discovery=False):
         import afkak.client as ac
         from afkak.client import KafkaClient
 
@@ -68,7 +68,7 @@ class ClientRun:
         ac.random = self.shuffler
         self.client = KafkaClient("k1:9001,k2:9002", timeout=TIMEOUT_S * 1000, reactor=self.clock,
                                   endpoint_factory=self.net.endpoint_factory, retry_policy=lambda f: RETRY_S,
-                                  enable_protocol_version_discovery=False, disconnect_on_timeout=disconnect_on_timeout)
+                                  enable_protocol_version_discovery=discovery, disconnect_on_timeout=disconnect_on_timeout)
         self.issued = []
         orig = self.client._make_request_to_broker
 
